@@ -707,7 +707,7 @@ def rules(repo, tier):
     from ..callsig import rule_callsig
     from ..docsig import rule_docsig
     from ..axisdefault import rule_axisdefault
-    return list(_rules_core(repo, tier)) + [rule_homo(repo), __import__('sa.rules.c06', fromlist=['x']).rule_bcast(repo, tier, 'C03'), rule_memo(repo, 'C03.MEMO', 'history independence: nothing computed from the contents of a tensor argument is kept '
+    return list(_rules_core(repo, tier)) + __import__('sa.core', fromlist=['x']).reid([__import__('sa.rules.c05', fromlist=['x']).rule_retr_add(repo), __import__('sa.rules.c05', fromlist=['x']).rule_clone(repo)], 'C03') + [rule_homo(repo), __import__('sa.rules.c06', fromlist=['x']).rule_bcast(repo, tier, 'C03'), rule_memo(repo, 'C03.MEMO', 'history independence: nothing computed from the contents of a tensor argument is kept '
                                                       'under the identity, address or version of that tensor, in module-level storage, or published from a generator '
                                                       'before it is complete - a later call with the same object and other contents must not be answered from it',
                                                       ['pypose.lietensor.lietensor', 'pypose.lietensor.operation', 'pypose.lietensor.basics', 'pypose.lietensor.utils'], floor=3),
